@@ -86,12 +86,15 @@ def run(ctx):
             res.add(Finding('C13', 'C13.a', 'R-ABSINT', m.file, m.qualname, gets[0].lineno if gets else m.node.lineno, norm(gets[0]) if gets else 'queue get',
                             'a blocking queue get without a finite timeout: a hung or dead worker blocks the run forever'))
     # parent wait loop: elapsed time vs configured timeout
-    wl = [n for n in walk_own(ww.node) if isinstance(n, ast.While)]
+    wl = [n for n in walk_own(ww.node) if isinstance(n, (ast.While, ast.For)) and any(
+        isinstance(x, ast.Call) and isinstance(x.func, ast.Attribute) and x.func.attr == 'get' and self_attr(x.func.value) in qfields for x in ast.walk(n))]
     okw = False
     why = 'no wait loop'
     if not wl:
         raise AnalysisError('the dispatch routine has no wait loop: shape not modelled')
-    if wl:
+    if isinstance(wl[0], ast.For):
+        why = 'for %s in %s: the wait is counted in polls, not measured against the clock' % (norm(wl[0].target), norm(wl[0].iter))
+    else:
         t = wl[0].test
         has_elapsed = any(isinstance(x, ast.BinOp) and isinstance(x.op, ast.Sub) and isinstance(x.left, ast.Call) and norm(x.left.func).endswith('time') for x in ast.walk(t))
         has_cfg = any(isinstance(x, ast.Attribute) and 'timeout' in x.attr for x in ast.walk(t))
